@@ -25,10 +25,7 @@ P = {
             'distinct = distinct (setup, program)',
     'trusted_base': _COMMON_TB,
     'assumptions': ['gas price 0, so no fee enters the balance equations', 'one validator, no slashing (tokens = shares)'],
-    'level_text': 'Coq theorems about the StateDB/journal/commit model and the precompile mirror discipline: exact supply-delta '
-                  'formula for every program, conservation under the mirror-complete invariant, refutation witnesses for each '
-                  'known finding class; the model is compared with the real keeper on generated call trees on every run, and the '
-                  'property itself (supply unchanged; balances = before + received - paid) is evaluated on the real run',
-    'level_note': 'partial: the theorem is about the model; interpreter, SDK keepers and gas are outside it (see trusted base)',
+    'level_text': 'Coq theorem: for every method, argument and state the Cosmos-side effect and success/failure of an owner call equal the native message (before the final StateDB commit); refutation witness K6 for the whole-transaction statement. Every run executes, on forks of the same state, the precompile transaction and the native message through the real message router and diffs balances, delegations, unbondings, rewards, withdraw addresses, grants; the model is compared with the implementation on the same cases',
+    'level_note': 'partial: the read-only query methods and ICS-20/bank precompiles are not exercised by this driver; interpreter, SDK keepers modelled not verified',
     'technique': 'Coq proof over a StateDB/precompile model + differential correspondence on generated EVM call trees',
 }
